@@ -221,6 +221,7 @@ def main(pid, mod, tier, seed, replay_path=None):
         # reported as a violation with the traceback so that it is never silently swallowed
         new = harness_err[:1] + new
     seenkeys = set()
+    t_confirm = time.time()
     for f in new:
         if f['key'] in seenkeys:
             continue
@@ -235,7 +236,8 @@ def main(pid, mod, tier, seed, replay_path=None):
         with open(path, 'w') as fh:
             json.dump(rec, fh, indent=1, sort_keys=True)
         confirmed = None
-        if f['key'] != 'HARNESS-EXCEPTION':
+        # re-execution outside the explorer; the first violations are always re-executed, later ones only while the budget (5 min) lasts
+        if f['key'] != 'HARNESS-EXCEPTION' and (len(viol_paths) < 2 or time.time() - t_confirm < 300):
             try:
                 confirmed = bool(mod.replay(rec))
             except Exception:
